@@ -33,7 +33,21 @@ def parse_fn(name):
 
 
 def rand_z0(rng, n):
-    kind = rng.integers(0, 4)
+    kind = rng.integers(0, 6)
+    if kind >= 4:
+        # partly equal impedances: every port takes one of two values (so some
+        # ports agree exactly and others do not); kind 5 keeps the real parts
+        # from the pool and gives each port its own imaginary part
+        pool = 10 ** rng.uniform(0, 3, 2)
+        pick = rng.integers(0, 2, n)
+        if n >= 2 and len(set(pick.tolist())) == 1:
+            pick[int(rng.integers(0, n))] ^= 1
+        re_ = pool[pick]
+        if kind == 4:
+            z = re_.astype(complex)
+        else:
+            z = re_ + 1j * re_ * rng.uniform(-1, 1, n)
+        return z, int(kind)
     if kind == 0:
         z = np.full(n, 50.0, dtype=complex)
     elif kind == 1:
